@@ -166,8 +166,9 @@ func OpAssign(o *Out, dk string, old reflect.Value, src SrcSpec, bufMode string)
 		in := "-"
 		switch dst.Elem().Kind() {
 		case reflect.String:
-			lo, hi := strData(dst.Elem())
-			in = inBuffer(buf, lo, int(hi-lo))
+			if str := dst.Elem().String(); len(str) > 0 {
+				in = inBuffer(buf, uintptr(unsafe.Pointer(unsafe.StringData(str))), len(str))
+			}
 		case reflect.Slice:
 			if dst.Elem().Len() > 0 {
 				in = inBuffer(buf, dst.Elem().Pointer(), dst.Elem().Len())
